@@ -41,14 +41,14 @@ PROPS['C17']['ties'].append(dict(name='TIE-D reads', vh='reads', model='reads', 
 PROPS['C17']['explanation'] += ' Point-in-time metadata reads (accounts and transactions, all four feature combinations) are compared with the read-side model (Ledger/Reads.v: ahist_at / thist_at) and with a monitor replaying the metadata writes accepted up to t. Two defects found this way were repaired by fix: commits (known_findings.json: KF-C17-*).'
 
 # TIE-F: fault injection at statement positions (driver error, transient deadlock, transient idempotency-key race) incl. dry runs
-def fault_tie(pid, quick=120, thorough=3000):
-    return dict(name='TIE-F faults', vh='faultops', model=None, n=dict(quick=quick, thorough=thorough), args=dict(all=['-monitors', pid]), kinds=[pid], case_head='faultops')
+def fault_tie(pid, quick=120, thorough=3000, extra=None):
+    return dict(name='TIE-F faults', vh='faultops', model=None, n=dict(quick=quick, thorough=thorough), args=dict(all=['-monitors', pid] + (extra or [])), kinds=[pid], case_head='faultops')
 FAULT_NOTE = (' TIE-F: for every write kind (30% dry runs) after a random prefix history, the operation is re-run on a fresh real stack with a fault at a random statement position: '
               'a driver error, a transient deadlock (SQLSTATE 40P01 once: forgeLog rolls back and retries through forgeLogRetry/runTx) or a transient idempotency-key unique violation on '
               'the log insert (same retry path); the monitor requires an unchanged complete snapshot after every failed or dry-run operation (retried or not), the fault-free outcome after a '
               'transient fault, and exactly one new log iff the operation really succeeded. This tie has no model side (the model runs each operation in one atomic step); it is what ties '
               'the structural rollback of Ledger/Core.v to the code\'s use of transaction handles.')
-PROPS['C07']['ties'].append(fault_tie('C07'))
+PROPS['C07']['ties'].append(fault_tie('C07', extra=['-scripts', '30']))   # script creates under transient faults: the retry re-runs createTransaction on the same Parameters value
 PROPS['C07']['explanation'] += FAULT_NOTE
 PROPS['C08']['ties'].append(fault_tie('C08'))
 PROPS['C08']['explanation'] += FAULT_NOTE
